@@ -419,6 +419,7 @@ type Property struct {
 	Replay    func(raw json.RawMessage) (violated bool, sig, expected, observed string)
 	Budget    func(tier string) time.Duration // internal deadline
 	Workers   int                             // 0 = all cores
+	Nondet    bool                            // the property is about nondeterminism: a violation is a pair of differing executions, believed when a fresh process shows one again at least once
 	PostMerge func(tier string, cov map[string]any, rs []WorkerResult)
 }
 
